@@ -1,12 +1,12 @@
 CONSTANTS
-  N = 3
+  N = 2
   L = 2
   Cap = 2
   HasHead = TRUE
   Manual = FALSE
-  HasPay = FALSE
+  HasPay = TRUE
   HasPlans = TRUE
-  HasSerial = TRUE
+  HasSerial = FALSE
   HasHist = TRUE
   HasLog = FALSE
   Verbose = FALSE
@@ -14,9 +14,9 @@ CONSTANTS
   DefMask <- AllDef
   MaxActs = 1
   WithMonitors = TRUE
-  EnvOps <- SmokeOps
-  EnvActs <- SmokeActs
-  EnvPoints <- AllPoints
+  EnvOps <- PayOps
+  EnvActs <- PayActs
+  EnvPoints <- PayPoints
 INIT Init
 NEXT Next
 VIEW StView
